@@ -301,7 +301,7 @@ theorem stepConn_park (c : Conn) (hinv : CInv c) (h0 : c.env.tr.readWaker = fals
   | finished => exact Or.inl h0
   | handler r h =>
     simp only [stepConn]
-    cases hhp : handlerPoll (1000 + env.tr.input.length * 4 + (env.segs.map (·.2.length)).sum * 4 + r.sp.cap * 4) r h env with
+    cases hhp : handlerPoll (1000 + env.tr.input.length * 4 + (env.segs.map (·.2.length)).sum * 4 + r.sp.cap * 4 + scriptCost h) r h env with
     | mk r' x =>
       obtain ⟨h', e', res⟩ := x
       have hp := handlerPoll_park _ _ _ _ hhp h0
@@ -801,7 +801,7 @@ theorem stepConn_oc (c : Conn) (hinv : CInv c) : StepOc c (stepConn c) := by
   | finished => exact Outcome.idle _ _ _
   | handler r h =>
     simp only [stepConn]
-    cases hhp : handlerPoll (1000 + env.tr.input.length * 4 + (env.segs.map (·.2.length)).sum * 4 + r.sp.cap * 4) r h env with
+    cases hhp : handlerPoll (1000 + env.tr.input.length * 4 + (env.segs.map (·.2.length)).sum * 4 + r.sp.cap * 4 + scriptCost h) r h env with
     | mk r' x =>
       obtain ⟨h', e', res⟩ := x
       have hp := handlerPoll_oc _ _ _ _ hhp
